@@ -435,3 +435,90 @@ Proof.
            (renumbering_of o1 surfs) (renumbering_of o2 surfs) skipped w1 w2 c
            Hb Hac Hg H1 H2 Hu0 Hu1 Hcons Hnd Hle Hin Hc1 Hc2 Hp1 Hp2 (Hresp o1) (Hresp o2) Hsk Hc).
 Qed.
+
+(* ---------- provenance and composition of the WRITTEN volumes ---------- *)
+From T4V Require C13.LinkC01Orig C01.ProofsWritten.
+
+Definition is_gnode (g : geom) : Prop := match g with GNode _ _ => True | _ => False end.
+
+(* Under the hypotheses of the linked theorem, for the owner cell c (listed, its
+   geometry an operator node in both tables, as pot_fill builds them): both
+   written tables contain a non-FICTIVE volume numbered c, sigma lies in it, and
+   its idorigin (the comment written after ENDV) is the provenance of cell c - the
+   same in both; the material (GEOMCOMP is keyed by the volume number c) is the
+   same too. *)
+Theorem options_same_written_provenance
+  fuel (o1 o2 : options) dic counter d1 c1 d2 c2
+  sigma matching u0 u1 cfuel todo cnt0 s1 s2 rn1 rn2 skipped w1 w2 c a b :
+  (forall k, lookup k dic <> None -> k <= counter) -> (exists rank, acyclic rank dic) ->
+  good_cells matching dic ->
+  cell_stage fuel o1 dic counter = Ok (d1, c1) -> cell_stage fuel o2 dic counter = Ok (d2, c2) ->
+  0 < u0 -> 0 < u1 -> S1.consistent sigma u0 u1 ->
+  NoDup todo -> (forall k, In k todo -> k <= cnt0) -> (forall k, In k todo -> lookup k d1 <> None) ->
+  M.convert_cells cfuel (embed_cells d1) matching u0 u1 todo (M.mkSt cnt0 [] [] []) = M.Ok s1 ->
+  M.convert_cells cfuel (embed_cells d2) matching u0 u1 todo (M.mkSt cnt0 [] [] []) = M.Ok s2 ->
+  M.prune u0 u1 rn1 (M.vols s1) = M.Ok w1 -> M.prune u0 u1 rn2 (M.vols s2) = M.Ok w2 ->
+  (forall r, rn1 = Some r -> C01.ProofsPrune.respects sigma r) ->
+  (forall r, rn2 = Some r -> C01.ProofsPrune.respects sigma r) ->
+  (forall k, In k skipped -> k <= cnt0 /\ ~ In k todo) ->
+  In c todo -> lookup c d1 = Some a -> lookup c d2 = Some b ->
+  is_gnode (cgeom a) -> is_gnode (cgeom b) ->
+  exists r1, acyclic r1 d1 /\
+  (cden r1 (sigmaM sigma matching) d1 c = true ->
+   (forall c', In c' todo -> cden r1 (sigmaM sigma matching) d1 c' = true -> c' = c) ->
+   exists v1 v2,
+     M.lookup c (M.written skipped w1) = Some v1 /\ M.lookup c (M.written skipped w2) = Some v2 /\
+     M.v_fict v1 = false /\ M.v_fict v2 = false /\
+     C01.ProofsCells.in_volume sigma (M.written skipped w1) c /\
+     C01.ProofsCells.in_volume sigma (M.written skipped w2) c /\
+     M.v_orig v1 = corigin a /\ M.v_orig v2 = corigin a /\ cmat a = cmat b).
+Proof.
+  intros Hb Hac Hg H1 H2 Hu0 Hu1 Hcons Hnd Hle Hin Hc1 Hc2 Hp1 Hp2 Hr1 Hr2 Hsk Hct Ha Hbb Hna Hnb.
+  assert (Hc : lookup c d1 <> None) by congruence.
+  destruct (cell_stage_same fuel o1 o2 dic counter d1 c1 d2 c2 Hb Hac H1 H2)
+    as [Htag [Hdom [r1 [r2 [Ha1 [Ha2 Hden]]]]]].
+  exists r1. split; [exact Ha1|]. intros Hown Huniq.
+  set (sM := sigmaM sigma matching) in *.
+  set (rho1 := cden r1 sM d1). set (rho2 := cden r2 sM d2).
+  pose proof (cell_stage_good matching fuel o1 dic counter d1 c1 Hb Hg H1) as Hg1.
+  pose proof (cell_stage_good matching fuel o2 dic counter d2 c2 Hb Hg H2) as Hg2.
+  pose proof (model_is_c01_cden sigma rho1 matching d1 Hg1 (cden_model r1 sM d1 Ha1)) as Hok1.
+  pose proof (model_is_c01_cden sigma rho2 matching d2 Hg2 (cden_model r2 sM d2 Ha2)) as Hok2.
+  assert (Hown2 : rho2 c = true) by (unfold rho2; rewrite <- (Hden sM c Hc); exact Hown).
+  assert (Huniq2 : forall c', In c' todo -> rho2 c' = true -> c' = c).
+  { intros c' Hi Ht. apply (Huniq c' Hi). unfold rho2 in Ht. rewrite <- (Hden sM c' (Hin _ Hi)) in Ht. exact Ht. }
+  destruct (T4V.Properties.C01.C01_partition sigma rho1 (embed_cells d1) matching u0 u1 cfuel todo cnt0 s1 rn1
+              skipped w1 c Hu0 Hu1 Hcons Hok1 Hnd Hle Hc1 Hp1 Hr1 Hsk Hown Huniq) as [P1 _].
+  destruct (T4V.Properties.C01.C01_partition sigma rho2 (embed_cells d2) matching u0 u1 cfuel todo cnt0 s2 rn2
+              skipped w2 c Hu0 Hu1 Hcons Hok2 Hnd Hle Hc2 Hp2 Hr2 Hsk Hown2 Huniq2) as [P2 _].
+  pose proof (proj2 (P1 Hct c) eq_refl) as I1. pose proof (proj2 (P2 Hct c) eq_refl) as I2.
+  destruct I1 as [v1 [L1 [F1 D1]]]. destruct I2 as [v2 [L2 [F2 D2]]].
+  exists v1, v2. split; [exact L1|]. split; [exact L2|]. split; [exact F1|]. split; [exact F2|].
+  split; [exists v1; auto|]. split; [exists v2; auto|].
+  (* provenance: back through prune/written to the conversion loop, then to the cell *)
+  assert (Horig : forall d rho s rn w v (cl : mcell),
+            (forall c0 g orig, M.lookup c0 (embed_cells d) = Some (g, orig) ->
+               C01.ProofsTree.leaves_ok (C01.ProofsTree.msurf_ok matching) g /\
+               rho c0 = S1.mden sigma rho matching g) ->
+            M.convert_cells cfuel (embed_cells d) matching u0 u1 todo (M.mkSt cnt0 [] [] []) = M.Ok s ->
+            M.prune u0 u1 rn (M.vols s) = M.Ok w ->
+            M.lookup c (M.written skipped w) = Some v ->
+            lookup c d = Some cl -> is_gnode (cgeom cl) -> M.v_orig v = corigin cl).
+  { intros d rho s rn w v cl Hok Hrun Hpr Hl Hcl Hn.
+    pose proof (C01.ProofsWritten.convert_cells_keys _ _ _ _ _ _ _ _ Hrun) as Hk.
+    destruct (T4V.C13.LinkC01Orig.written_orig u0 u1 rn skipped (M.vols s) w c v Hk Hpr Hl) as [v0 [L0 E0]].
+    rewrite E0.
+    apply (T4V.C13.LinkC01Orig.convert_cells_orig sigma rho (embed_cells d) matching u0 u1 Hu0 Hu1 Hcons Hok
+             cfuel todo _ _ Hrun) with (k := c) (g := embed (cgeom cl)).
+    - intros k0 v00 Hl0. discriminate.
+    - exact Hnd.
+    - intros k0 Hk0. split; [reflexivity|cbn; auto].
+    - exact Hct.
+    - exact L0.
+    - rewrite lookup_embed, Hcl. reflexivity.
+    - destruct (cgeom cl); try contradiction. reflexivity. }
+  pose proof (Htag c a b Ha Hbb) as Ht. unfold tag in Ht.
+  split; [exact (Horig d1 rho1 s1 rn1 w1 v1 a Hok1 Hc1 Hp1 L1 Ha Hna)|].
+  split; [|congruence].
+  rewrite (Horig d2 rho2 s2 rn2 w2 v2 b Hok2 Hc2 Hp2 L2 Hbb Hnb). congruence.
+Qed.
